@@ -253,38 +253,56 @@ def c14_private_probe(pid, tier):
         dom += [z3.And(v >= 0, v < csxlib.P) for c in Pv.child for v in c]     # public inputs of a verified proof are canonical
         for cname, clause in Pv.A_parts.items():
             others = [c for nm, c in Pv.A_parts.items() if nm != cname]
-            s = z3.Solver()
-            s.set("timeout", 120000)
-            s.add(dom + others + [z3.Not(clause)])
+            # shapes of the violation are forced one by one (which slots / which output columns collide), so that the probe does not
+            # depend on which model the solver happens to return; then k_models unconstrained models
+            W = wrappers
+            ch = Pv.child
+            eq4 = lambda a, b: z3.And([x == y for x, y in zip(a, b)])
+            shapes = [[]]
+            if "sum" in cname:
+                shapes = [[eq4(ch[0][W.E1:W.E1 + 4], ch[1][W.E1:W.E1 + 4]), ch[0][W.O1] + ch[1][W.O1] >= 2 ** 32, Pv.real[0], Pv.real[1]],
+                          [eq4(ch[0][W.E1:W.E1 + 4], ch[1][W.E2:W.E2 + 4]), ch[0][W.O1] + ch[1][W.O2] >= 2 ** 32, Pv.real[0], Pv.real[1]],
+                          [eq4(ch[0][W.E2:W.E2 + 4], ch[1][W.E2:W.E2 + 4]), ch[0][W.O2] + ch[1][W.O2] >= 2 ** 32, Pv.real[0], Pv.real[1]],
+                          [eq4(ch[0][W.E1:W.E1 + 4], ch[0][W.E2:W.E2 + 4]), ch[0][W.O1] + ch[0][W.O2] >= 2 ** 32, Pv.real[0]],
+                          [eq4(ch[n - 1][W.E1:W.E1 + 4], ch[n - 1][W.E2:W.E2 + 4]), ch[n - 1][W.O1] + ch[n - 1][W.O2] >= 2 ** 32, Pv.real[n - 1]], []]
+            elif "nullifier" in cname:
+                shapes = [[eq4(ch[i][W.NUL:W.NUL + 4], ch[j][W.NUL:W.NUL + 4]), Pv.real[i], Pv.real[j]] for i in range(n) for j in range(i + 1, n)] + [[]]
+            elif "block hash" in cname or "fee" in cname:
+                shapes = [[Pv.real[i], Pv.real[j]] + [z3.Not(Pv.real[k]) for k in range(n) if k not in (i, j)] for i in range(n) for j in range(i + 1, n)] + [[]]
             found = 0
-            while found < k_models and s.check() == z3.sat:
-                m = s.model()
-                ev = lambda e: int(str(m.eval(e, model_completion=True)))
-                x = [[ev(v) for v in c] for c in Pv.child]
-                found += 1
-                s.add(z3.Or([v != xv for c, xc in zip(Pv.child, x) for v, xv in zip(c, xc)][:8]))
-                # (i) the real circuit cannot be satisfied for x
-                q = z3.Solver()
-                q.set("timeout", 120000)
-                q.add(Pv.base())
-                q.add([v == xv for c, xc in zip(Pv.child, x) for v, xv in zip(c, xc)])
-                circ = q.check()
-                # (ii) the real preflight on x
-                out = subprocess.run([csxlib.EMIT_BIN, "call", "preflight_priv", json.dumps(x)], capture_output=True, text=True).stdout.strip()
-                name = f"N={n}: batch violating only '{cname}' (model {found}): circuit unsatisfiable and the real commit preflight rejects it"
-                ok = (circ == z3.unsat) and out == "Err"
-                r = kanilib.HarnessResult("csx+native", name)
-                r.verdict = "SUCCESSFUL" if ok else ("FAILED" if (circ == z3.unsat and out == "Ok") else "UNKNOWN")
-                r.covers = (1, 1)
-                recs.append(r)
-                print(f"  [c14 ] {name:120s} circuit={circ} preflight={out}", flush=True)
-                if r.verdict == "FAILED":
-                    named = {f"child_{i}": x[i] for i in range(n)}
-                    named.update({f"pre_{i}": [1, 2, 3, 4 + i] for i in range(n)})
-                    rp = csxlib.replay(pid, f"priv:{n}", [{"label": "commit-accepted batch", "mode": "honest", "named": named}])
-                    path = csxlib.replay_path(pid)
-                    json.dump({"clause": cname, "children": x, "real_preflight": out, "real_wrapper_prover": rp}, open(path, "w"))
-                    viol.append((r, path, f"commit preflight accepts a batch the circuit cannot prove: violates '{cname}' (N={n}); real prover: {rp[0].get('detail')}", not rp[0].get("accepted")))
+            for shape in shapes:
+              s = z3.Solver()
+              s.set("timeout", 120000)
+              s.add(dom + others + [z3.Not(clause)] + shape)
+              budget = found + (k_models if not shape else 1)
+              while found < budget and s.check() == z3.sat:
+                  m = s.model()
+                  ev = lambda e: int(str(m.eval(e, model_completion=True)))
+                  x = [[ev(v) for v in c] for c in Pv.child]
+                  found += 1
+                  s.add(z3.Or([v != xv for c, xc in zip(Pv.child, x) for v, xv in zip(c, xc)][:8]))
+                  # (i) the real circuit cannot be satisfied for x
+                  q = z3.Solver()
+                  q.set("timeout", 120000)
+                  q.add(Pv.base())
+                  q.add([v == xv for c, xc in zip(Pv.child, x) for v, xv in zip(c, xc)])
+                  circ = q.check()
+                  # (ii) the real preflight on x
+                  out = subprocess.run([csxlib.EMIT_BIN, "call", "preflight_priv", json.dumps(x)], capture_output=True, text=True).stdout.strip()
+                  name = f"N={n}: batch violating only '{cname}' (model {found}): circuit unsatisfiable and the real commit preflight rejects it"
+                  ok = (circ == z3.unsat) and out == "Err"
+                  r = kanilib.HarnessResult("csx+native", name)
+                  r.verdict = "SUCCESSFUL" if ok else ("FAILED" if (circ == z3.unsat and out == "Ok") else "UNKNOWN")
+                  r.covers = (1, 1)
+                  recs.append(r)
+                  print(f"  [c14 ] {name:120s} circuit={circ} preflight={out}", flush=True)
+                  if r.verdict == "FAILED":
+                      named = {f"child_{i}": x[i] for i in range(n)}
+                      named.update({f"pre_{i}": [1, 2, 3, 4 + i] for i in range(n)})
+                      rp = csxlib.replay(pid, f"priv:{n}", [{"label": "commit-accepted batch", "mode": "honest", "named": named}])
+                      path = csxlib.replay_path(pid)
+                      json.dump({"clause": cname, "children": x, "real_preflight": out, "real_wrapper_prover": rp}, open(path, "w"))
+                      viol.append((r, path, f"commit preflight accepts a batch the circuit cannot prove: violates '{cname}' (N={n}); real prover: {rp[0].get('detail')}", not rp[0].get("accepted")))
             if found == 0:
                 r = kanilib.HarnessResult("csx+native", f"N={n}: no model violating only '{cname}' (clause not independently violable at this N)")
                 r.verdict = "SUCCESSFUL"
